@@ -19,6 +19,7 @@ import TzVerif.Spec.Zone
 import TzVerif.Proofs.Search
 import TzVerif.Proofs.SearchRule
 import TzVerif.Proofs.SpecSearch
+import TzVerif.Proofs.SrcEqFind
 
 namespace TzVerif.C05
 open TzVerif.Model TzVerif.Proofs
@@ -126,5 +127,22 @@ theorem valid_results_are_the_spec_set (y mo d h mi s ns : Int) (z : TimeZone) (
 theorem spec_set_meaning (z : TimeZone) (c u : Int) (t : LocalTimeType) :
     (u, t) ∈ Spec.validSet z c ↔ (t ∈ Spec.zoneTypes z ∧ u = c - t.utOffset ∧ Spec.zoneExpect z u = .type t) :=
   validSet_mem_iff z c u t
+
+/-! ### The same about the source text
+`TzVerif.Src.find_date_time` is src/datetime/find.rs `find_date_time` translated to Lean on every run
+(tools/rs2lean.py, DESIGN §13): both loops, the memoising `get_time` closure and every early return. It equals
+the model's search, so every theorem of this file is about the code as it is now. -/
+
+theorem translated_source_is_the_model (y mo d h mi s ns : Int) (z : TimeZone) :
+    Src.find_date_time [] y mo d h mi s ns z = findDateTime y mo d h mi s ns z :=
+  SrcEq.find_date_time_eq y mo d h mi s ns z
+
+/-- `valid_results_are_the_spec_set` about the translated search -/
+theorem valid_results_are_the_spec_set_src (y mo d h mi s ns : Int) (z : TimeZone) (rs : List Found)
+    (hz : ZoneGood z) (hfd : FieldsGood y mo d h mi s)
+    (hf : Src.find_date_time [] y mo d h mi s ns z = .ok rs) (u : Int) (t : LocalTimeType) :
+    (u, t) ∈ Spec.validSet z (Spec.seconds y mo d h mi s) ↔
+      ∃ x, Found.normal x ∈ rs ∧ x.unixTime = u ∧ x.localTimeType = t :=
+  valid_results_are_the_spec_set y mo d h mi s ns z rs hz hfd (SrcEq.find_date_time_eq y mo d h mi s ns z ▸ hf) u t
 
 end TzVerif.C05
